@@ -8,7 +8,10 @@ TARGET = dict(
           "expgolomb: 1-24 ue/se/fixed fields (code numbers up to 2^32-2) written by a reference writer, escaped by a reference emulation-prevention inserter, cut into a "
           "tape-chosen segmentation; non-trivial = an escape octet inside a code or a code longer than 24 bits, read from a segmented block. "
           "framer: H.264/H.265 elementary stream assembled by a reference encoder (parameter sets, AUD, SEI, IDR/non-IDR slices) or the recorded stream of "
-          "tests/upipe_h264_framer_test.h, optionally mutated or arbitrary octets, fed under 3 cuttings (whole, one-octet buffers, tape-chosen cuts biased to start codes); "
+          "tests/upipe_h264_framer_test.h, optionally mutated or arbitrary octets, fed under 3 cuttings (whole, one-octet buffers, tape-chosen cuts biased to start codes); three further tape octets choose "
+          "access-unit-per-buffer input (NALU with offsets, 1/2/4-octet length prefixes, Annex B pieces, complete access units announced), parameter sets in band or only "
+          "in the flow definition's global headers (Annex B with 3/4-octet start codes, or avcC / hvcC records written by the harness, encapsulation announced or to be inferred), "
+          "the sink asking for global headers and for each output encapsulation, optional SPS syntax (scaling lists, full VUI with timing and NAL/VCL HRD), and damage to buffers and records; "
           "non-trivial = a cut inside a start code with >=2 access units; distinct by hash of the decoded case"),
     assumptions=["stand-in bitstream headers /verif/shim/bitstream/mpeg/h264.h and itu/h265.h (DESIGN.md section 5); the harness-side reference writers do not use them",
                  "reference NAL writer, exp-Golomb writer, emulation-prevention inserter and access-unit boundary rule (H.264 7.4.1.2.4, H.265 7.4.2.4.4) in the harness",
@@ -25,7 +28,7 @@ META = dict(
     technique="property-based testing (rapidcheck tapes -> C executors) with independent reference encoders, round-trip and metamorphic (re-cutting) oracles under ASan",
     text="Three executors. convert: generated frames in every NAL encapsulation converted A->B->A, compared with a reference serialisation (payloads, order, offsets, header size, refusal of prefix overflow). "
          "expgolomb: values written by a reference exp-Golomb writer and emulation-prevention inserter, read back through upipe_h26xf_stream_ue/se/fill_bits/get over arbitrary segmentations, value and position compared. "
-         "framer: streams from a reference H.264/H.265 encoder, the recorded unit-test stream, mutations and arbitrary octets fed to the real framers under three cuttings; outputs compared with the generated access units and with each other. Sampling.",
+         "framer: streams from a reference H.264/H.265 encoder, the recorded unit-test stream, mutations and arbitrary octets fed to the real framers under three cuttings; outputs compared with the generated access units and with each other; the same access units fed one per buffer in NALU / length-prefixed / Annex B form with in-band or out-of-band parameter sets must give one output per buffer in the encapsulation asked for, octet-identical NAL units, the same picture attributes as the stream run, and global headers (Annex B or avcC/hvcC, parsed by the harness) made of exactly the parameter sets sent. Sampling.",
     design_ref="DESIGN.md section 6, C17",
-    note="decided for the repository sources compiled against the stand-in biTStream headers; the reference encoder covers baseline/main/high SPS without VUI, PPS, AUD, SEI, IDR/non-IDR slice headers up to the POC fields",
+    note="decided for the repository sources compiled against the stand-in biTStream headers; the reference encoders cover baseline/main/high SPS with scaling lists and full VUI (timing, NAL/VCL HRD), PPS, AUD, buffering-period / pic-timing SEI, IDR/non-IDR slice headers up to the POC fields; input urefs carry no dates and no discontinuities (timestamp fix-ups are not judged)",
 )
